@@ -8,7 +8,7 @@ mkdir -p /tmp/tmwt; git -C /repo worktree add -q --detach $wt HEAD || exit 3
 trap 'git -C /repo worktree remove --force $wt; rm -rf /tmp/trymut-$$' EXIT
 git -C $wt apply "$patch" || { echo "patch does not apply"; exit 3; }
 for id in "$@"; do
-  out=$(cd /verif && VERIF_REPO=$wt VERIF_EVIDENCE_DIR=/tmp/trymut-$$/evidence VERIF_REPLAY_DIR=/tmp/trymut-$$/replays bin/vcheck $id ${TIER:+--tier $TIER} 2>&1); rc=$?
+  out=$(cd ${VERIF_DIR:-/verif} && VERIF_REPO=$wt VERIF_EVIDENCE_DIR=/tmp/trymut-$$/evidence VERIF_REPLAY_DIR=/tmp/trymut-$$/replays bin/vcheck $id ${TIER:+--tier $TIER} 2>&1); rc=$?
   echo "== $id rc=$rc: $(echo "$out" | grep -c '^VIOLATION') violation line(s)"
   echo "$out" | grep -A1 '^VIOLATION\|^INCONC\|^KNOWN' | cut -c1-300 | head -${LINES_MAX:-12}
 done
